@@ -144,11 +144,11 @@ def check_clamps(ctx, db):
                 minus_one = r.k == 'BinaryOperator' and r.op == '-'
                 D = None
                 for k2, x in defs:
-                    if k2 == key and x.id < d.id:
-                        D = x if D is None or x.id > D.id else D
+                    if k2 == key and x.pos < d.pos:
+                        D = x if D is None or x.pos > D.pos else D
                 clamp = None
                 for i in f.walk():
-                    if i.k == 'IfStmt' and D is not None and D.id < i.id < d.id:
+                    if i.k == 'IfStmt' and D is not None and D.pos < i.pos < d.pos:
                         c = _strip_casts(i.child('cond'))
                         if c.k == 'BinaryOperator' and c.op == '<' and lvalue_key(c.child('lhs')) == key and c.child('rhs').cv is not None:
                             th = i.child('then')
@@ -425,7 +425,7 @@ def check_hobby_indices(ctx, db):
             for count in range(2, 8):
                 shift = None
                 for i in range(count):
-                    env = _ienv([st for st in body.c if st is not None and st.k == 'DeclStmt' and st.id < v.parent.id], {'count': count, iv.n: i})
+                    env = _ienv([st for st in body.c if st is not None and st.k == 'DeclStmt' and st.pos < v.parent.pos], {'count': count, iv.n: i})
                     try:
                         val = ieval(v.child('init'), env)
                     except KeyError:
@@ -450,17 +450,96 @@ def check_hobby_indices(ctx, db):
             ctx.check(bad is None, 'R-INDEX.cyclic', 'hobby_interpolation/%s@%s' % (v.n, v.loc()), v.loc(), 'wrap-around index `%s` is a cyclic shift of `%s` for every count 2..7' % (v.n, iv.n), bad)
     ctx.require('R-INDEX.cyclic wrap-around indices', n, 5)
 
-    # --- rotation
-    ptr = {p['n'] for p in f.params if '*' in p['t']}
+    # --- rotation: every memcpy is reduced to (destination root, byte offset) <- (source root, byte offset) x bytes, where a root is a
+    # pointer parameter or an allocation; pointer arithmetic is scaled by the pointee size, locals are followed to the definition that
+    # precedes the use (so a copy routed through a helper's byte pointers is the same fact as one written with typed pointers)
+    SIZEOF = {'Vec2': 16, 'gdstk::Vec2': 16, 'double': 8, 'bool': 1, 'uint8_t': 1, 'unsigned char': 1, 'char': 1, 'void': 1, 'uint64_t': 8}
+
+    def pointee(t):
+        t = (t or '').replace('const ', '').replace(' const', '').strip()
+        if not t.endswith('*'):
+            return None
+        return SIZEOF.get(t[:-1].strip())
+
+    def def_before(ref):
+        """the definition of the local `ref` that precedes it (initialiser or plain assignment), by position"""
+        best = None
+        for x in f.walk():
+            rhs = None
+            if x.k == 'VarDecl' and x.d == ref.d and x.child('init') is not None:
+                rhs = x.child('init')
+            elif is_assign(x) and x.op == '=' and _strip_casts(x.child('lhs')).k == 'DeclRefExpr' and _strip_casts(x.child('lhs')).d == ref.d:
+                rhs = x.child('rhs')
+            if rhs is not None and x.pos < ref.pos and (best is None or x.pos > best[0].pos):
+                best = (x, rhs)
+        return best
+
+    def ival(e, env):
+        """integer value of e; integer locals are followed to their preceding definition"""
+        e0 = _strip_casts(e)
+        try:
+            return ieval(e0, env)
+        except (KeyError, AnalysisBroken):
+            pass
+        env2 = dict(env)
+        for x in e0.walk():
+            if x.k == 'DeclRefExpr' and x.dk == 'local' and x.n not in env2:
+                db_ = def_before(x)
+                if db_ is None:
+                    raise AnalysisBroken('hobby_interpolation: `%s` has no definition before its use' % x.n)
+                env2[x.n] = ival(db_[1], env)
+        return ieval(e0, env2)
+
+    def baddr(e, env, depth=0):
+        """(root, byte offset) of a pointer expression"""
+        e0 = _strip_casts(e)
+        if depth > 12 or e0 is None:
+            raise AnalysisBroken('hobby_interpolation: pointer expression too deep')
+        if e0.k == 'ParenExpr':
+            return baddr(e0.c[0], env, depth + 1)
+        if e0.k == 'CallExpr' and (e0.callee or '').split('::')[-1] in ('allocate', 'allocate_clear', 'malloc'):
+            return ('alloc', e0.id), 0
+        if e0.k == 'DeclRefExpr' and e0.dk == 'param':
+            return ('param', e0.n), 0
+        if e0.k == 'DeclRefExpr' and e0.dk == 'local':
+            db_ = def_before(e0)
+            if db_ is None:
+                raise AnalysisBroken('hobby_interpolation: pointer `%s` has no definition before its use' % e0.n)
+            return baddr(db_[1], env, depth + 1)
+        if e0.k == 'BinaryOperator' and e0.op in ('+', '-'):
+            l, r = e0.child('lhs'), e0.child('rhs')
+            pl, pr = pointee(_strip_casts(l).ct or _strip_casts(l).t), pointee(_strip_casts(r).ct or _strip_casts(r).t)
+            if pl is not None and pr is None:
+                root, off = baddr(l, env, depth + 1)
+                return root, off + (1 if e0.op == '+' else -1) * ival(r, env) * pl
+            if pr is not None and pl is None and e0.op == '+':
+                root, off = baddr(r, env, depth + 1)
+                return root, off + ival(l, env) * pr
+        raise AnalysisBroken('hobby_interpolation: pointer expression `%s` not understood' % norm(e0.text())[:60])
+
+    memcpys = [c for c in f.walk() if c.k == 'CallExpr' and c.callee == 'memcpy']
+    # the work arrays: pointer locals assigned from an allocation (directly or through a helper's result) that receive copies
+    work = {}
+    for a in f.walk():
+        if is_assign(a) and a.op == '=' and _strip_casts(a.child('lhs')).k == 'DeclRefExpr' and pointee(_strip_casts(a.child('lhs')).ct or _strip_casts(a.child('lhs')).t) is not None:
+            try:
+                root, off = baddr(a.child('rhs'), {'count': 3, 'rotate': 1, 'points_size': 4})
+            except AnalysisBroken:
+                continue
+            if root[0] == 'alloc' and off == 0:
+                work[root] = _strip_casts(a.child('lhs'))
     copies = {}
-    for c in f.walk():
-        if c.k == 'CallExpr' and c.callee == 'memcpy':
-            d = _strip_casts(c.args[0])
-            base = d if d.k == 'DeclRefExpr' else next((x for x in d.walk() if x.k == 'DeclRefExpr' and '*' in (x.t or '')), None)
-            if base is not None:
-                copies.setdefault(base.n, []).append(c)
+    for c in memcpys:
+        try:
+            root, _ = baddr(c.args[0], {'count': 3, 'rotate': 1, 'points_size': 4})
+        except AnalysisBroken:
+            continue
+        if root in work:
+            copies.setdefault(work[root].n, []).append(c)
     if len(copies) != 4 or any(len(v) != 2 for v in copies.values()):
         raise AnalysisBroken('hobby_interpolation: expected four rotated work arrays filled by two memcpy each, found %s' % {k: len(v) for k, v in copies.items()})
+    esz = {work[r].n: pointee(work[r].ct or work[r].t) for r in work if work[r].n in copies}
+    allocs = {work[r].n: next(x for x in f.walk() if x.id == r[1]) for r in work if work[r].n in copies}
     stores = [a for a in f.walk() if is_assign(a) and a.op == '=' and _strip_casts(a.child('lhs')).k == 'ArraySubscriptExpr' and _strip_casts(_strip_casts(a.child('lhs')).c[0]).n == 'points'
               and any(x.k == 'DeclRefExpr' and x.n == 'pts' for x in a.child('rhs').walk())]
     if len(stores) != 2:
@@ -472,25 +551,22 @@ def check_hobby_indices(ctx, db):
     for count in range(2, 8):
         for rotate in range(0, count):
             env0 = {'count': count, 'rotate': rotate, 'points_size': count + 1}
-            for nme in list(copies) + list(ptr):
-                env0[nme] = 0
             maps = {}
             for dst, calls in copies.items():
                 m = {}
                 stride = None
+                sz = esz[dst]
                 for c in calls:
-                    sz = next((x.cv for x in c.args[2].walk() if x.k == 'UnaryExprOrTypeTraitExpr'), None)
-                    do, so, nb = ieval(c.args[0], env0), ieval(c.args[1], env0), ieval(c.args[2], env0)
+                    (dr, dob), (sr, sob), nbytes = baddr(c.args[0], env0), baddr(c.args[1], env0), ival(c.args[2], env0)
+                    if sr[0] != 'param' or dob % sz or sob % sz or nbytes % sz:
+                        bad.setdefault('%s/cover' % dst, 'count = %d, rotate = %d: a copy into `%s` does not move whole elements of one input array' % (count, rotate, dst))
+                        continue
+                    do, so, nb = dob // sz, sob // sz, nbytes
                     for k in range(nb // sz):
                         if do + k in m:
                             bad.setdefault('%s/overlap' % dst, 'count = %d, rotate = %d: element %d of `%s` is written by both copies' % (count, rotate, do + k, dst))
                         m[do + k] = so + k
-                alloc = next((a for a in f.walk() if is_assign(a) and lvalue_key(a.child('lhs')) is not None and _strip_casts(a.child('lhs')).n == dst and any(x.k == 'CallExpr' and (x.callee or '').endswith('allocate') for x in a.child('rhs').walk())), None)
-                if alloc is None:
-                    raise AnalysisBroken('hobby_interpolation: allocation of %s not found' % dst)
-                ac = next(x for x in alloc.child('rhs').walk() if x.k == 'CallExpr' and (x.callee or '').endswith('allocate'))
-                szs = next((x.cv for x in ac.args[0].walk() if x.k == 'UnaryExprOrTypeTraitExpr'), None)
-                total = ieval(ac.args[0], env0) // szs
+                total = ival(allocs[dst].args[0], env0) // sz
                 if sorted(m) != list(range(total)):
                     bad.setdefault('%s/cover' % dst, 'count = %d, rotate = %d: the copies fill elements %s of `%s` but %d are allocated and read' % (count, rotate, _ranges(sorted(m)), dst, total))
                 maps[dst] = (m, total // (count + 1))
@@ -628,7 +704,7 @@ def check_inverse_trig_domains(ctx, db):
             # (a') a clamp statement on the argument variable before the call: `if (x < -1) x = -1;`
             if not guarded and arg.k == 'DeclRefExpr':
                 for i in f.walk():
-                    if i.k == 'IfStmt' and i.id < c.id:
+                    if i.k == 'IfStmt' and i.pos < c.pos:
                         for b in i.child('cond').walk():
                             if b.k == 'BinaryOperator' and b.op in ('<', '>', '<=', '>=') and any(_strip_casts(z).k == 'DeclRefExpr' and _strip_casts(z).d == arg.d for z in (b.child('lhs'), b.child('rhs'))):
                                 if any(is_assign(a_) and _strip_casts(a_.child('lhs')).k == 'DeclRefExpr' and _strip_casts(a_.child('lhs')).d == arg.d for a_ in i.child('then').walk()):
